@@ -87,7 +87,7 @@ async fn tunnel(http: u16, origin: u16) -> Option<TcpStream> {
 /// play one timed scenario; returns the offset (ms) at which the client saw the tunnel close, or None if still open at `watch`
 /// Some((close time, lower bound, upper bound of the moment the last data byte was handed to the kernel)), all in
 /// ms on the scenario's own clock (started when the tunnel is established)
-async fn scenario(http: u16, events: Vec<(bool, u64)>, watch: u64) -> Option<(Option<u64>, u64, u64)> {
+async fn scenario(http: u16, events: Vec<(bool, u64)>, watch: u64) -> Option<(Option<u64>, u64, u64, u64)> {
     let sent: Arc<std::sync::Mutex<(u64, u64)>> = Arc::new(std::sync::Mutex::new((0, 0)));
     let epoch: Arc<std::sync::Mutex<Option<std::time::Instant>>> = Arc::new(std::sync::Mutex::new(None));
     let (sent_o, epoch_o) = (sent.clone(), epoch.clone());
@@ -120,8 +120,10 @@ async fn scenario(http: u16, events: Vec<(bool, u64)>, watch: u64) -> Option<(Op
         }
         Some(())
     });
+    let pre = std::time::Instant::now();
     let mut c = tunnel(http, oport).await?;
     let t0 = std::time::Instant::now();
+    let setup_ms = t0.duration_since(pre).as_millis() as u64 + 1;
     *epoch.lock().unwrap() = Some(t0);
     let cev: Vec<u64> = events.iter().filter(|e| e.0).map(|e| e.1).collect();
     let (mut rd, mut wr) = c.split();
@@ -157,7 +159,7 @@ async fn scenario(http: u16, events: Vec<(bool, u64)>, watch: u64) -> Option<(Op
     };
     origin.abort();
     let g = *sent.lock().unwrap();
-    Some((r, g.0, g.1))
+    Some((r, g.0, g.1, setup_ms))
 }
 
 fn ev_s(e: &[(bool, u64)]) -> String {
@@ -311,6 +313,8 @@ pub async fn run(out: &mut Out) {
         let r = h.await.ok().flatten();
         let case = format!("I {} {} {}", t, splice as u8, ev_s(&ev));
         let (lo, hi) = r.map(|x| (x.1, x.2)).unwrap_or((0, 0));
+        // without data the period runs from the start of the relay, which the proxy enters while the client still waits for the reply
+        let setup = r.map(|x| if x.1 == 0 { x.3 } else { 0 }).unwrap_or(0);
         let r = r.map(|x| x.0);
         let imp = match r {
             None => "no-tunnel".to_string(),
@@ -328,7 +332,7 @@ pub async fn run(out: &mut Out) {
             Some(Some(ms)) => {
                 if t == 0 {
                     out.oracle_fail("closed-although-disabled", &format!("{}: closed after {} ms", case, ms));
-                } else if ms < lo + t * 1000 {
+                } else if ms + setup < lo + t * 1000 {
                     out.oracle_fail("closed-early", &format!("{}: closed {} ms after the tunnel was established, last data not before {} ms, period {} s", case, ms, lo, t));
                 } else if ms > hi + t * 1000 + slack {
                     out.oracle_fail("closed-late", &format!("{}: closed {} ms after the tunnel was established, last data by {} ms, period {} s, allowed slack {} ms", case, ms, hi, t, slack));
